@@ -13,6 +13,8 @@ RULE = (
     "shifting, -1 stays -1), and must not change when the k characters before start_pos are replaced by "
     "different ones. Plus 35 fixed position-sensitive shapes (skip-until forms over every ordered list of 1-2 stop "
     "strings, regex-based terminals, trivia, EOI, the stack) x every text up to 3-4 characters x every k. "
+    "Every (rule, text, k) call is then repeated on the same Parser / module and the same text object with k "
+    "descending from len(text) to 0 and compared with the same suffix results. "
     "Non-trivial: k >= 1 and the parse consumed >= 1 character or failed beyond k; distinct "
     "by hash of (grammar, mode, rule, text, k)."
 )
